@@ -149,13 +149,56 @@ def direct_effects(f):
     return out
 
 
+def param_writes(f):
+    """indices of the pointer parameters whose pointee f writes itself: memset(p, ..),
+    *p = .., p[i] = .. (a helper that clears or fills what it is handed)"""
+    pn = [p['name'] for p in f.params]
+    out = set()
+    for n in f.all_nodes():
+        k = n['k']
+        tgt = None
+        if k == 'call' and n.get('callee') in MEM_WRITERS:
+            args = f.call_args(n)
+            i = MEM_WRITERS[n['callee']]
+            if i < len(args):
+                tgt = cu.strip_casts(f, args[i])
+        elif (k == 'bin' and n['op'] in ASSIGN_OPS) or (k == 'un' and n['op'] in ('++', '--', 'post++', 'post--')):
+            l = cu.strip_casts(f, f.kid(n, 0))
+            if l is not None and (l['k'] == 'sub' or (l['k'] == 'un' and l['op'] == '*')):
+                tgt = cu.strip_casts(f, f.kid(l, 0))
+        if tgt is not None and tgt['k'] == 'ref' and tgt.get('dk') == 'param' and tgt['name'] in pn:
+            out.add(pn.index(tgt['name']))
+    return out
+
+
 class Effects(object):
     def __init__(self, prog, cg):
         self.prog = prog
         self.cg = cg
         self.direct = {}
+        pw = {}
         for f in prog.fns():
             self.direct[(f.tu.name, f.name)] = direct_effects(f)
+            w = param_writes(f)
+            if w:
+                pw[(f.tu.name, f.name)] = w
+        # a field handed to a helper that writes through its parameter is written there:
+        # `clear_bitmask(scanner->flags, n)` is an effect on scanner->flags[] of the caller
+        for f in prog.fns():
+            for c in f.calls():
+                cal = c.get('callee')
+                if not cal or cal in MEM_WRITERS:
+                    continue
+                h = prog.fn(cal, f.tu)
+                if h is None or (h.tu.name, h.name) not in pw:
+                    continue
+                args = f.call_args(c)
+                for i in pw[(h.tu.name, h.name)]:
+                    if i >= len(args):
+                        continue
+                    d = cu.strip_casts(f, args[i])
+                    if d is not None and d['k'] == 'member' and _via_pointer(f, d):
+                        self.direct[(f.tu.name, f.name)].append((('field', d.get('rec'), d['fld'] + '[]'), c))
         self._trans = None
 
     def transitive(self, roots=None):
